@@ -1,1 +1,140 @@
-/-! # C12 — property theorems (stub: not built yet) -/
+import PymocaVerif.Lemmas.GenTag2
+import PymocaVerif.Lemmas.GenFunc
+import PymocaVerif.Model.RatPrims
+/-!
+# C12 — the representation options do not change the model's meaning
+
+In the model of the generator (`Model/Gen.lean`) the options `unroll_loops`, `inline_functions`,
+`expand_mx` are read in exactly three places: the mode of a `map` node (`Opts.mapMode`), the inline flag
+of a `call` node, and the `expand` flag of the final function.  The theorems say that this is *all*
+they do — under other options the generator builds the same terms with other tags (also inside called
+functions), accepts and rejects the same models — and that evaluation never looks at a tag.  Hence
+all 8 combinations give residual functions with identical values at every point, for every model
+(any loops, any functions, no fragment restriction).  The variable lists and their metadata are built by
+code that takes none of the three options (`exitClass`, `_ast_symbols_to_variables`); on the real code
+that part is checked by the 8-way differential run (`harness/props/c12.py`).
+-/
+namespace PymocaVerif.Gen
+open PymocaVerif.ExprSem PymocaVerif.RatPrims
+
+/-- **Evaluation ignores the tags**: overwriting every map mode and inline flag of a generated term
+    (recursively, also inside the bodies of called functions) does not change its value. -/
+theorem eval_ignores_tags (P : Prims K) (o : Opts) (t : CTerm K) (ρ : Env K) :
+    evalC P ρ (retag o t) = evalC P ρ t :=
+  evalC_retag P o t ρ
+
+example : evalC ratPrims ⟨fun _ => some [2], fun _ => none, fun _ => none⟩
+      (retag ⟨false, false, true⟩ (.map .inline "i" [1, 2, 3] true (.op2 (.meth .mul_) (.idx "i") (.ref "x" [])))) =
+    some [(2 : Rat), 4, 6] := by
+  decide +kernel
+
+/-- **The options only tag**: under options `o'` the generator produces, for every expression and every
+    function table, exactly the `o'`-retagging of what it produces under `o` — and fails exactly when it
+    fails under `o`, with the same error. -/
+theorem options_only_tag_expressions (P : Prims K) (o o' : Opts) (T : FTab K) (e : MExpr K) :
+    gen P o' (retagTab o' T) e = (gen P o T e).map (retag o') :=
+  gen_retag P o o' T e
+
+/-- The same for whole function tables (`get_function` for every declared function). -/
+theorem options_only_tag_functions (P : Prims K) (o o' : Opts) (fs : List (MFunc K)) :
+    genTable P o' fs = retagTab o' (genTable P o fs) :=
+  genTable_retag P o o' fs
+
+/-- The generated residual function under `o'` is the retagged residual function under `o`, with the
+    `expand` flag of `o'`. -/
+theorem options_only_tag_residual (P : Prims K) (o o' : Opts) (ienv : String → Option Int)
+    (m : MModel K) (initial : Bool) :
+    genResidual P o' ienv m initial =
+      (genResidual P o ienv m initial).map (fun f => ⟨o'.expand, f.outs.map (retag o')⟩) := by
+  unfold genResidual
+  rw [genTable_retag P o o' m.funcs, genMEqs_retag P o o']
+  cases genMEqs P o (genTable P o m.funcs) ienv (if initial then m.ieqs else m.eqs) with
+  | error e => rfl
+  | ok ts => rfl
+
+/-- **Representation invariance**: for every model and any two option sets, the generator accepts under
+    one iff it accepts under the other, and the two residual functions (DAE or initial) have the same
+    value at every point — whatever the loops, functions, or carrier. -/
+theorem repr_invariant (P : Prims K) (o o' : Opts) (ienv : String → Option Int) (m : MModel K)
+    (initial : Bool) (fn : CFunction K) (h : genResidual P o ienv m initial = .ok fn) :
+    ∃ fn', genResidual P o' ienv m initial = .ok fn' ∧ fn'.expand = o'.expand ∧
+      ∀ ρ : Env K, evalFn P ρ fn' = evalFn P ρ fn := by
+  refine ⟨⟨o'.expand, fn.outs.map (retag o')⟩, ?_, rfl, fun ρ => ?_⟩
+  · rw [options_only_tag_residual P o o', h]; rfl
+  · simp [evalFn, evalCL_retag]
+
+/-- … and rejection is option-independent too. -/
+theorem repr_invariant_rejection (P : Prims K) (o o' : Opts) (ienv : String → Option Int) (m : MModel K)
+    (initial : Bool) (e : GenErr) (h : genResidual P o ienv m initial = .error e) :
+    genResidual P o' ienv m initial = .error e := by
+  rw [options_only_tag_residual P o o', h]; rfl
+
+def exampleModel : MModel Rat :=
+  { funcs := [{ name := "f", inputs := ["a"], outputs := ["r"], locals := [],
+                body := [.assign "r" (.num 1),
+                         .for "k" 1 (.lit 2) 1 [("r", .bin .add (.ref "r" []) (.bin .mul (.idx "k") (.ref "a" [])))]] }],
+    eqs := [.foreq "i" 1 (.lit 3) 1
+              [⟨[.ref "v" [.at (.var "i")]], .call "f" (.cons (.bin .mul (.idx "i") (.ref "p" [])) .nil)⟩]],
+    ieqs := [] }
+
+def examplePoint : Env Rat :=
+  ⟨fun n => if n = "v" then some [1, 2, 3] else some [2], fun n => if n = "v" then some [3] else none,
+   fun _ => none⟩
+
+-- all 8 combinations on a model with a for-equation calling a function with a for-statement
+example : ∀ u i x : Bool, ∃ fn, genResidual ratPrims ⟨u, i, x⟩ (fun _ => none) exampleModel false = .ok fn ∧
+    fn.expand = x ∧ evalFn ratPrims examplePoint fn = some [[(-6 : Rat), -11, -16]] := by
+  intro u i x
+  obtain ⟨fn', h1, h2, h3⟩ := repr_invariant ratPrims {} ⟨u, i, x⟩ (fun _ => none) exampleModel false _ rfl
+  refine ⟨fn', h1, h2, ?_⟩
+  rw [h3]
+  decide +kernel
+
+/-- Link to C11: where the Modelica meaning of the equations is defined, *every* option combination
+    returns that meaning (functions in the fragment of `function_subst_partial`). -/
+theorem repr_invariant_meaning_partial (P : Prims K) (o o' : Opts) (ienv : String → Option Int)
+    (m : MModel K) (initial : Bool) (fn : CFunction K)
+    (h : genResidual P o ienv m initial = .ok fn)
+    (hsafe : ∀ f ∈ m.funcs, SafeFunc f) (hS : NoShadow (genTable P o m.funcs))
+    (ρ : Env K) (hidx : ρ.idx = ienv) (v : List (List K))
+    (hv : residualsOfModel P ρ m initial = some v) :
+    ∃ fn', genResidual P o' ienv m initial = .ok fn' ∧ evalFn P ρ fn' = some v := by
+  obtain ⟨fn', h1, _, h3⟩ := repr_invariant P o o' ienv m initial fn h
+  refine ⟨fn', h1, ?_⟩
+  rw [h3]
+  unfold genResidual at h
+  obtain ⟨ts, hts, hc⟩ := bind_ok.mp h
+  cases hc
+  -- `residual_function_correct_partial` of C11, restated here to keep this file's imports minimal
+  have hT : TabOK P (genTable P o m.funcs) (funcTable P m.funcs) := by
+    have : ∀ (fs : List (MFunc K)), (∀ f ∈ fs, SafeFunc f) → NoShadow (genTable P o fs) →
+        TabOK P (genTable P o fs) (funcTable P fs) := by
+      intro fs
+      induction fs with
+      | nil => intro _ _; exact ⟨fun _ => rfl, fun f fn h => by simp [genTable] at h⟩
+      | cons f rest ih =>
+        intro hsafe hS
+        have hS' : NoShadow (genTable P o rest) := by
+          refine ⟨fun e => ?_, fun op => ?_⟩
+          · have := hS.1 e; simp only [genTable] at this; split at this <;> simp_all
+          · have := hS.2 op; simp only [genTable] at this; split at this <;> simp_all
+        have ih' := ih (fun g hg => hsafe g (by simp [hg])) hS'
+        refine ⟨fun n => ?_, fun n fn h => ?_⟩
+        · simp only [genTable, funcTable]
+          split
+          · simp
+          · exact ih'.dom n
+        · simp only [genTable] at h
+          simp only [funcTable]
+          split at h
+          · rename_i hn
+            simp only [Option.some.injEq] at h
+            exact ⟨funcSem P (funcTable P rest) f, by simp [hn], fun vs =>
+              genFunc_refines P o (genTable P o rest) (funcTable P rest) ih' hS' f (hsafe f (by simp)) fn h vs⟩
+          · rename_i hn
+            simp only [hn, if_false]
+            exact ih'.sem n fn h
+    exact this m.funcs hsafe hS
+  exact genMEqs_refines P o _ _ hT hS ienv _ ts hts ρ hidx v hv
+
+end PymocaVerif.Gen
